@@ -1353,7 +1353,7 @@ pub fn run_check(tier_name: &str, seed: u64, verif_dir: &str) -> i32 {
         "coverage": {
             "evaluations": stats.steps,
             "distinct_nontrivial": stats.trace_tree_pairs.len(),
-            "rule": "one evaluation = one call of mamba::transpile_dir (real code, own process) against a scratch tree inside a seeded project history; directory order, hash keys, short reads/EINTR and — in the fault configuration — errno faults, short writes, a full disk or a process crash at a chosen intercepted call are injected at the libc boundary. distinct_nontrivial counts distinct (intercepted-call trace digest, resulting tree digest) pairs. The enumeration part injects every fault kind at every call index of every tree-call class and a crash at every tree-touching call for sampled projects.",
+            "rule": "one evaluation = one call of mamba::transpile_dir (real code; own process per step, or one process for all steps of a session history) against a scratch tree inside a seeded project history; directory order, hash keys, short reads/EINTR and — in the fault configuration — errno faults, short writes, a full disk or a process crash at a chosen intercepted call are injected at the libc boundary. distinct_nontrivial counts distinct (intercepted-call trace digest, resulting tree digest) pairs. The enumeration part injects every fault kind at every call index of every tree-call class and a crash at every tree-touching call for sampled projects.",
             "samples": [sample],
             "scenarios": scen_count,
             "histories_random": results.len(),
